@@ -305,6 +305,29 @@ PROPS.update({
                          "the component expectation uses the library's own field parser on the single content (field-level correctness is C05/C02)"],
         "assumptions": ["a call `covers` a letter iff the enum it parses has a variant with that letter (parse_with_variant dispatch is C14)"],
     },
+    "C15": {
+        "streams": ["c15"],
+        "driver": True,
+        "extractors": ["T8"],
+        "instances": lambda gen: gen.get("scenarios", {}).get("leaves", 0),
+        "rule": "for every shipped scenario file (195, all 30 types): random draws through the library's own four plugin functions generate_mt -> "
+                "publish_mt -> validate_mt -> parse_mt with an EXACT comparison of parsed and generated JSON (nulls dropped, numbers by value, no "
+                "rounding); plus directed draws in which every text generator (company_name, street_address, city_name, name, bs, sentence) is "
+                "replaced by an extreme value found among 40 000 (quick) / 400 000 (thorough) real draws of that generator: longest, shortest, "
+                "exactly 35 / 36 characters, a blank at the 33rd..36th position (the substr cut), an apostrophe in a long name. Every generator kind "
+                "used by a scenario is drawn 300 / 3000 times and each draw is sent to the Lean model (`leaf kind args text`), which must answer "
+                "that it lies in the language assumed for that kind. Non-trivial = every pipeline case; distinct = (type, scenario, class)",
+        "modelled": "the scenario files as expression trees (T8: literals, var, fake, cat, substr); the languages of the external generators (assumed; "
+                    "computed by the translator from datafake-rs' operator source and the `fake` crate's word lists, validated against real draws on "
+                    "every run); the documented component formats (nx text, slash-free reference, BIC, currency) and, through C05, the field models. "
+                    "NOT modelled: amounts, dates, code words, structured lines (50F, 59F, 61, 77T), the network rules of a whole generated message, "
+                    "datafake's engine itself",
+        "trusted_base": [KERNEL, TRANSLATOR, HARNESS,
+                         "ASSUMPTION GenOK: every draw of a generator kind lies in the language listed in Generated/FakeLangs.lean and the bic8 / bic11 kinds draw texts parse_bic accepts (external crates datafake-rs 0.2, fake 4.4; sampled on every run, not proved)",
+                         "JSONLogic `cat` / `substr` semantics of datalogic-rs as modelled by `Draws` (concatenation; characters start..start+len)"],
+        "assumptions": ["a scenario's value is what the expression tree denotes under `Draws` (var = the variable's expression; one draw per variable is a special case)",
+                        "`date` kinds return today's date (datafake: Utc::now()), so date components do not vary between draws"],
+    },
     "C08": {
         "streams": ["c08", "fields"],
         "stream_args": {"fields": ["--prop", "C08", "--modelled", "@modelled"]},
